@@ -10,31 +10,48 @@ from harness.common import Ck, coq_bool, coq_list, parse_coq_N_list
 from translate import c01_kvser, c02_tables
 
 MANIFEST = dict(
-    technique='Rocq proof (character-level tokenizer model + Keyvalues.parse token loop + template-interpreting '
-              'serialiser; round trip by induction over trees) + ast template/escape-table translator with '
-              'kernel-checked instance obligations + vm_compute correspondence + round-trip oracle on the implementation',
-    text='Theorems in Props/C01.v: for every write-template configuration accepted by cfg_ok and every escape table '
-         'accepted by esc_ok, for all trees (any depth/width, empty blocks, duplicate names, empty strings, every code '
-         'point; names without line breaks), all whitespace-only indent/start_indent strings and both brace styles, '
-         'parse_kv(serialise(t)) = t with no error (root documents and named nodes), and the token stream of the text '
-         'is the same for any two whitespace-only option sets. The templates (each f-string piece of every file.write in '
-         '_serialise classified literal / variable / raw field / escape_text(field)), the open/close brace definitions of '
-         'serialise, the yields of the deprecated export(), tokenizer.ESCAPES and the ESCAPE_RE exclusions are regenerated '
-         'from the source on every run; cfg_ok/esc_ok and "no store or mutating call on the tree inside the writers" are '
-         'discharged for them in the kernel. The hand-written tokenizer and parser models are compared with '
-         'Keyvalues.serialise (exact text) and Keyvalues.parse (tree or error kind) on generated, mutated and hand-made '
-         'texts; the round trip, tree immutability, indentation independence and the three delivery forms (str, chunk '
-         'list, file object) are searched on the real implementation.',
-    note='Trusted: Coq kernel + vm_compute, translate/c01_kvser.py, the hand models KV/KvLex.v and KV/KvParse.v (tied by '
-         'differential runs only), CPython. Chunked delivery (Tokenizer._next_char over an iterable) is not modelled: '
-         'it is searched, and is the subject of C03. Trees with a nameless node below the root, non-str values, and '
-         'cyclic trees are outside the model. The Cython tokenizer twin cannot be built here and is not covered. '
-         '"Independent of indentation apart from whitespace" is proved as equality of token streams; equality of the '
-         'texts after deleting blanks outside quotes is checked by the search only.',
+    technique='Rocq proof (character-level KV lexer proved equal to the reader-program tokenizer model of C03 under the '
+              'options Keyvalues.parse passes; Keyvalues.parse token loop with its options; template-interpreting models of '
+              'serialise() and of the deprecated export(); round trip by induction over trees; chunk independence '
+              'inherited from the generic reader theorem) + ast translator for write templates, escape tables and the '
+              'decisive tests of parse/_serialise/export with kernel-checked instance obligations + vm_compute '
+              'correspondences (sampled, and exhaustive at the token level) + round-trip oracle on the implementation',
+    text='Theorems in Props/C01.v: for every write-template configuration accepted by cfg_ok (xcfg_ok for export()), every '
+         'escape table accepted by esc_ok and every parser configuration accepted by pcfg_ok, for all trees (any '
+         'depth/width, empty blocks, duplicate names, empty strings, every code point; names without line breaks), all '
+         'whitespace-only indent/start_indent strings and both brace styles, parse(serialise(t)) = t with no error, for '
+         'root documents and named nodes, through serialise() and through export(); the same for every setting of the '
+         'parse options newline_keys / newline_values / single_line (with newline_keys=True for ALL names), and '
+         'single_block=True returns the first node itself; the token stream is the same for any two whitespace-only '
+         'option sets and the text after deleting blanks outside quotes is a function of the tree alone. '
+         'kv_lexer_refines_tokenizer: the KV lexer model yields exactly the tokens and the error of the C03 tokenizer '
+         'model (reader programs over _next_char with push-back) under string_bracket/string_parens/allow_escapes; hence '
+         'parse_any_delivery: parsing any list of chunks (any cuts, empty chunks) or any reader state denoting the text '
+         'equals parsing the concatenation, and kv_roundtrip_any_delivery. Refuted variants with computed witnesses: raw '
+         'block name (pinned _serialise/export), truth-valued root test, a key line-break test wider than LF/CR, line '
+         'breaks in names/values under the options that forbid them, non-whitespace indent. Regenerated from the source '
+         'on every run: every f-string piece of the writers (literal / variable / raw field / escape_text(field)), the '
+         'root tests of _serialise and export, the structure of export(), ESCAPES and the ESCAPE_RE exclusions, the '
+         'character sets of the two "Illegal newline" tests of parse, the emptiness guards of the flag-replacement tests '
+         'and of the single_block return, the Tokenizer(...) options, and a census of stores/mutating calls on the tree '
+         'inside the writers; cfg_ok/xcfg_ok/esc_ok/pcfg_ok/tables_match are discharged for them in the kernel as '
+         'named booleans. The token loop model is compared with Keyvalues.parse on ALL token strings up to length 4 '
+         '(thorough: 5) over a 9-symbol alphabet under all 16 option vectors (scripted tokenizer, checksums), on '
+         'generated/mutated/hand-made texts under random options, and on chunk lists through the reader model; the '
+         'writers models are compared with serialise()/export() text exactly.',
+    note='Trusted: Coq kernel + vm_compute, translate/c01_kvser.py and translate/c02_tables.py, the hand model of the '
+         'token loop KV/KvParse.v (tied by the exhaustive token-level and sampled text-level correspondences), the C03 '
+         'tokenizer model Text/Tokenizer.v (tied by C03\'s exhaustive small-scope correspondence; KV/KvLex.v is no longer '
+         'trusted: it is proved equal to it), CPython. _read_flag is not modelled: its verdicts enter as an arbitrary '
+         'predicate (theorems hold for all of them; correspondences record the real verdicts). allow_escapes=False, '
+         'escape_text(multiline=True) (no KV1 writer uses it), trees with a nameless node below the root, non-str '
+         'values, cyclic trees and the Cython tokenizer twin are outside the model. "Serialisation never changes the '
+         'tree" is a syntactic census (no store / mutating call on tree objects in the writers) plus the identity walk of '
+         'the search, not a semantic theorem. serialise(file) versus the returned string is searched only.',
 )
 
 IMPORTS = ['Coq.Lists.List', 'Coq.NArith.NArith', 'Coq.Bool.Bool', 'SV.KV.KvBase', 'SV.KV.KvLex', 'SV.KV.KvParse',
-           'SV.KV.KvSer', 'SV.KV.KvSym', 'SV.KV.KvExport', 'SV.KV.KvEnum', 'SV.Gen.KVSer_gen']
+           'SV.KV.KvSer', 'SV.KV.KvSym', 'SV.KV.KvExport', 'SV.KV.KvEnum', 'SV.KV.KvFlags', 'SV.Gen.KVSer_gen']
 IMPORTS_REFINE = ['Coq.Lists.List', 'Coq.NArith.NArith', 'Coq.Bool.Bool', 'SV.Text.Str', 'SV.Text.Prog', 'SV.Text.Tokenizer',
                   'SV.Text.TokGen', 'SV.KV.KvBase', 'SV.KV.KvLex', 'SV.KV.KvParse', 'SV.KV.KvRefine', 'SV.Gen.KVSer_gen']
 PRE = '''Import ListNotations. Open Scope N_scope.
@@ -47,9 +64,15 @@ Definition agree (r : pres) (e : (list kv + kv) + N) : bool :=
   | PNode k, inl (inr k') => kv_eqb k k'
   | PErr x, inr c => perr_code x =? c
   | _, _ => false end.
-Definition flag_tbl (t : list (str * bool)) (s : str) : bool := existsb (fun p => str_eqb (fst p) s && snd p) t.
-Definition parse_case (c : ((str * N) * list (str * bool)) * ((list kv + kv) + N)) : bool :=
-  agree (parse_kv_opts gen_parsecfg (mkopts (snd (fst (fst c)))) gen_escfg (flag_tbl (snd (fst c))) (fst (fst (fst c))))
+(* _read_flag: the flags mapping given to parse, FLAGS_DEFAULT as found at run time (run_defaults, appended below),
+   and the graph of str.casefold on the flag names that occur *)
+Fixpoint assoc_s (k : str) (t : list (str * str)) : option str :=
+  match t with [] => None | (k', v) :: r => if str_eqb k' k then Some v else assoc_s k r end.
+Definition cf_tbl (t : list (str * str)) (s : str) : str := match assoc_s s t with Some x => x | None => s end.
+Definition parse_case (defaults : list (str * bool))
+    (c : ((str * N) * (list (str * bool) * list (str * str))) * ((list kv + kv) + N)) : bool :=
+  agree (parse_kv_opts gen_parsecfg (mkopts (snd (fst (fst c)))) gen_escfg
+           (read_flag (cf_tbl (snd (snd (fst c)))) (fst (snd (fst c))) defaults) (fst (fst (fst c))))
         (snd c).
 Definition ser_case (c : ((str * bool * str) * list kv) * str) : bool :=
   let '(i, b, s) := fst (fst c) in
@@ -212,7 +235,7 @@ def impl_parse(data, flag_log: dict | None = None, popts: dict | None = None, fl
     if flag_log is not None:
         def spy(flags, val):
             r = orig(flags, val)
-            flag_log[val] = r
+            flag_log[val] = r          # the flag texts that were looked at (and the verdicts, for the chunked tie)
             return r
         kvmod._read_flag = spy
     try:
@@ -344,11 +367,25 @@ CORPUS_TEXT = [
     '"a" [!x360]\n\n\n{\n}\n', '"a" [win32]\n"b" "c"\n', '"a" [x360]\n"b" "c"\n', '"x" "1"\n"a" "b" [$WIN32]\n"a" "c" [$X360]\n',
     '"a"\n{\n"b" "1"\n}\n"a" [win32]\n{\n}\n"a" [!win32]\n{\n}\n', '"a" "b" [x360]\n"c" [win32]\n{\n}\n',
     '"a" "b" //x\r\n"c" "d"', '"a" "b\\', '"a" "b\\\r\nc"\n', '"\\\n" "x"\n', '"a" "\r"\n', '"a" "\n\r"\n',
+    '"a" "b" [WIN32]\n', '"a" "b" [\xdf]\n"c" "d" [!\xdf]\n', '"a" "b" [!!x360]\n', '"a" "b" []\n', '"a" "b" [!]\n',
+    '"a" [X360]\n{\n}\n"b" "c" [!X360]\n', '"a" "b" [$osx]\n"a" "c" [$OSX]\n',
 ]
 MUT_ALPHABET = list('""""\\\\{}{}[]()/ \t\n\n\r#=,;\':+!ab$') + ['\ufeff', '\U0001f600']
-SOUP = ['"a"', '"b c"', 'x', 'y1', '{', '}', '\n', '\n', ' ', '\t', '[win32]', '[!x360]', '[$OSX]', '[zz]', '// c', '\r\n', '\r',
+SOUP = ['"a"', '"b c"', 'x', 'y1', '{', '}', '\n', '\n', ' ', '\t', '[win32]', '[!x360]', '[$OSX]', '[zz]', '[ZZ]', '[!WIN32]', '[\xdf]', '[!!zz]', '// c', '\r\n', '\r',
         '"\\n"', '"\\\\"', '"a\\"b"', '""', '/', '(p)', '#d', '=', ',', '"', '\\', '[', ']', '\ufeff', ':', '"k" "v"\n',
         '"blk"\n{\n', '}\n']
+
+
+# values for Keyvalues.parse(flags=...): keys are looked up after case-folding the [flag] text, so an upper-case key never
+# matches; values go through bool()
+USER_FLAGS = [{}, {}, {}, {'win32': False}, {'x360': True}, {'zz': True}, {'X360': True, 'ZZ': True}, {'osx': True, 'linux': False},
+              {'!x360': True}, {'ss': True}, {'$osx': 1, 'win32': 0}, {'': True}]
+
+
+def run_defaults() -> str:
+    """FLAGS_DEFAULT as the module holds it now (platform dependent entries are evaluated at import)."""
+    from srctools import keyvalues as kvmod
+    return '[' + '; '.join(f'({coq_chars(k)}, {coq_bool(bool(v))})' for k, v in kvmod.FLAGS_DEFAULT.items()) + ']'
 
 
 def gen_parse_text(rng: random.Random) -> tuple[str, str]:
@@ -395,6 +432,7 @@ def corr_parse(ck: Ck):
         if len(text) > 1500:
             text = text[:1500]
         flags: dict = {}
+        uflags = {} if i < len(CORPUS_TEXT) else ck.rng.choice(USER_FLAGS)
         # options: the corpus first with the defaults, then again under every option vector in turn; generated
         # texts half with the defaults, half with a random vector
         if i < len(CORPUS_TEXT):
@@ -403,9 +441,15 @@ def corr_parse(ck: Ck):
             kind, text, bits = 'corpus-options', CORPUS_TEXT[i - len(CORPUS_TEXT)], ck.rng.randrange(16)
         else:
             bits = DEFAULT_OPT_BITS if ck.rng.random() < 0.5 else ck.rng.randrange(16)
-        res = impl_parse(text, flags, bits_opts(bits))
-        cases.append((text, flags, res, bits))
+        res = impl_parse(text, flags, bits_opts(bits), uflags)
+        # graph of str.casefold on the flag names met (after the optional '!')
+        cf = {}
+        for fv in flags:
+            nm = fv[1:] if fv[:1] == '!' else fv
+            cf[nm] = nm.casefold()
+        cases.append((text, (uflags, cf), res, bits))
         ck.count('parse_correspondence_cases')
+        ck.hist('parse_corr_user_flags', ','.join(sorted(uflags)) or 'none')
         ck.hist('parse_corr_kind', kind)
         ck.hist('parse_corr_options', '+'.join(k for k, v in bits_opts(bits).items() if v) or 'none')
         ck.hist('parse_corr_outcome', res[0] if res[0] != 'err' else ERR_NAMES.get(res[1], str(res[1])))
@@ -429,9 +473,10 @@ def corr_parse(ck: Ck):
             return f'inr {r[1]}'
         lit = coq_list(
             f'((({coq_chars(cases[k][0])}, {cases[k][3]}), '
-            f'[{"; ".join(f"({coq_chars(f)}, {coq_bool(v)})" for f, v in cases[k][1].items())}]), {want(cases[k][2])})'
+            f'([{"; ".join(f"({coq_chars(f)}, {coq_bool(bool(v))})" for f, v in cases[k][1][0].items())}], '
+            f'[{"; ".join(f"({coq_chars(a)}, {coq_chars(b)})" for a, b in cases[k][1][1].items())}])), {want(cases[k][2])})'
             for k in chunk)
-        jobs.append(('parse', f'bad_idx parse_case 0 {lit}'))
+        jobs.append(('parse', f'bad_idx (parse_case {run_defaults()}) 0 {lit}'))
         parts.append(chunk)
         chunk, size = [], 0
     for k, c in enumerate(cases):
@@ -457,7 +502,8 @@ def finish_parse(ck: Ck, cases, parts, results) -> None:
     if bad:
         t, f, r, b = min((cases[i] for i in bad), key=lambda c: len(c[0]))
         ck.tie_broken.append('correspondence parse (KV/KvLex.v + KV/KvParse.v vs Tokenizer + Keyvalues.parse)')
-        ck.extra['parse_disagreement'] = {'text': t, 'flags': f, 'impl': r, 'options': bits_opts(b), 'n': len(bad)}
+        ck.extra['parse_disagreement'] = {'text': t, 'flags_param': f[0], 'casefold_graph': f[1], 'impl': r,
+                                          'options': bits_opts(b), 'n': len(bad)}
 
 
 # ------------------------------------------------------------------------------------------------ chunked delivery, model side
@@ -591,7 +637,7 @@ def scripted_parse(word, bits: int, fin: int):
 def corr_tokens(ck: Ck) -> None:
     """Exhaustive small scope at the token level."""
     n = 5 if ck.thorough else 4
-    shards = [(bits, 0) for bits in range(16)] + [(bits, 1) for bits in ((2, 6) if not ck.thorough else range(16))]
+    shards = [(bits, 0) for bits in range(16)] + [(bits, 1) for bits in (2, 6)]
     want = {}
     outcomes: dict = {}
     for bits, fin in shards:
@@ -884,7 +930,7 @@ SEARCH_CORPUS = [
 
 
 def search(ck: Ck) -> None:
-    n = ck.budget(3000, 30000)
+    n = ck.budget(3000, 15000)
     found: dict[str, tuple] = {}
     shrinks: dict[str, int] = {}
     shrunk_docs: set = set()
@@ -1005,8 +1051,7 @@ def search(ck: Ck) -> None:
             if d and may_shrink('roundtrip-options', odoc):
                 small = shrink_doc(odoc, lambda dd: bool(options_fails(dd, po, so)))
                 cls = options_fails(small, po, so)
-                okey = '+'.join(k for k, v in po.items() if v) or 'none'
-                report(f'roundtrip-options:{okey}:' + fail_key('x', small, cls)[2:],
+                report('roundtrip-options:' + fail_key('x', small, cls)[2:],
                        f'parse(serialise(t), {po}) is not the tree ({cls})', small, so, {'parse_options': po})
             # the deprecated writer
             ck.count('search_exports')
@@ -1035,13 +1080,22 @@ def run(ck: Ck) -> None:
                'subtrees, empty strings/blocks; non-trivial = at least one string contains a character that the format '
                'treats specially; distinct by full tree (+ options for serialise cases). parse texts: serialisations, 1-4 '
                'character mutations of them, a hand-written corpus (flags, comments, CR/LF forms, same-line braces, every '
-               'error path) and token soup; non-trivial = at least 4 characters; distinct by text.')
-    ck.trusted.append('hand-written models KV/KvLex.v (Tokenizer as configured by Keyvalues.parse) and KV/KvParse.v '
-                      '(token loop), tied by differential correspondence on every run')
+               'error path) and token soup, each under the default or a random vector of the four parse options; '
+               'non-trivial = at least 4 characters; distinct by (text, options). chunk lists: the same texts cut per '
+               'character, at random positions, with empty chunks, after every backslash/quote/newline; non-trivial = at '
+               'least two chunks. token strings: ALL strings up to length 4 (thorough 5) over {STR a, STR b, STR with a '
+               'line break, NEWLINE, {, }, enabled flag, disabled flag, EQUALS} x 16 option vectors x {EOF, tokenizer '
+               'error}: counted as evaluations, not as distinct non-trivial cases.')
+    ck.trusted.append('hand-written model KV/KvParse.v (token loop of Keyvalues.parse with its options), tied on every run by '
+                      'the exhaustive token-level correspondence and the sampled text-level correspondences')
+    ck.trusted.append('Text/Tokenizer.v (reader-program model of Tokenizer, owned and tied by C03); KV/KvLex.v is proved equal '
+                      'to it (kv_lexer_refines_tokenizer) for the regenerated tables')
+    ck.trusted.append('translate/c02_tables.py (regenerates Gen/EscTables_gen.v, the tables of the C03 tokenizer model)')
     ck.assumptions += [
         'trees are finite, acyclic, values are str, only the root is nameless (Keyvalues.root / parse result)',
-        'names contain no CR/LF (excluded by the property); indent and start_indent consist of spaces and tabs',
-        'parse is called with its default options; chunked delivery is searched, not modelled (see C03)',
+        'names contain no CR/LF unless parse is called with newline_keys=True; values contain none when '
+        'newline_values=False; indent and start_indent consist of spaces and tabs',
+        'allow_escapes=True; _read_flag enters the theorems as an arbitrary predicate',
     ]
     stage: dict = {}
     ck.extra['stage_wall_seconds'] = stage       # informative only: never influences a result
